@@ -399,7 +399,8 @@ class ObjWorld(Run):
             op["items"] = [self._lit_pauli(rng, n) for _ in range(L)]
             op["cs"] = [[rng.choice([1.0, -0.5, 2.0]), rng.choice([0.0, 0.0, 1.5])] for _ in range(L)]
         elif kind == "map":
-            op["images"] = sut.strs(rm.rand_clifford_images(rng, n))
+            # special values matter for shortcuts in the library: the identity map now and then
+            op["images"] = sut.strs(rm.identity_images(n) if rng.random() < 0.2 else rm.rand_clifford_images(rng, n))
         elif kind == "smallmap":
             if n < 2:
                 return None
@@ -974,6 +975,14 @@ class ObjWorld(Run):
         self.trans.add(hash(("q", s.kind, q)) & 0xFFFFFFFFFFFF)
         if res is not None:
             k = kind_of(pc, res)
+            if k is not None and q in ("compose", "inverse") and s.kind == "map":
+                # compose and inverse are documented to return NEW maps (property text of C04, and
+                # C17 lists them among the queries): a result that shares storage with an operand
+                # would let a later in-place operation on the result change the operand
+                for iname in inputs:
+                    si = self.slots.get(iname)
+                    if si is not None and shares(res, k, si.obj, si.kind):
+                        raise Violation("c17.new_map_shares_operand", {"query": q, "operand": iname, "kind": si.kind})
             if k is not None:
                 self.register(op["out"], res, k, inputs)
                 if self.slots[op["out"]].roots & (s.roots):
